@@ -33,4 +33,17 @@ theorem C15_partial_repoll_completes {s : St} {a : Sp} (h : Rel s a) (op : Op) (
     (hposs : (a.step op).2.refused = false) : ∃ o, (poll s op).2 = .ready o :=
   ⟨_, by rw [(poll_spec h op hop hal).1 hposs]⟩
 
+/-- What also holds, and is what `poll`'s second attempt is for: if another stage makes the operation possible *while the waker
+    is being registered* (after the refused first attempt), the same poll completes — the task is not parked on a condition
+    that is already true. (Engine `wakeprobe` forces exactly this interleaving on the real crate.) -/
+theorem C15_partial_no_lost_wakeup_window {s : St} {a : Sp} (h : Rel s a) (op e : Op) (hop : op.isAsync = true) (hal : Allowed s a op)
+    (href : (a.step op).2.refused = true) (hale : Allowed (step s op).1 a e)
+    (hal2 : Allowed (step (step s op).1 e).1 (a.step e).1 op) (hen : ((a.step e).1.step op).2.refused = false) :
+    ∃ o, (pollWith s op e).2 = .ready o :=
+  let ⟨o, h1, _⟩ := pollWith_completes h op e hop hal href hale hal2 hen
+  ⟨o, h1⟩
+
+/-- Non-vacuity: empty buffer, consumer polls `pop`, the producer pushes 7 during the registration: ready with 7. -/
+example : (pollWith (St.init [0, 0, 0] false true false) .pop (.push 7)).2 = .ready (.item 7) := by decide
+
 end MRB.Props.C15
